@@ -202,7 +202,7 @@ func serverFlood(c *Ctx, r *Rng, n int) {
 		return
 	}
 	defer cl.Close()
-	sent := map[string][]byte{}
+	sent := map[string][][]byte{}
 	valid, answered := 0, 0
 	buf := make([]byte, 4096)
 	for i := 0; i < n; i++ {
@@ -222,8 +222,14 @@ func serverFlood(c *Ctx, r *Rng, n int) {
 			p.Add(1, radius.Attribute("u"))
 			d, _ = p.Encode()
 			valid++
+			if i%8 == 3 {
+				// a longer request, then the same datagram cut short (its Length field now points past the end): the cut one
+				// must be dropped even though the server's buffer still holds the tail of the longer one
+				p.Add(18, r.Bytes(40+r.Intn(60)))
+				d, _ = p.Encode()
+			}
 			cl.Write(d)
-			sent[string(d[4:20])] = d
+			sent[string(d[4:20])] = append(sent[string(d[4:20])], d)
 			cl.SetReadDeadline(time.Now().Add(3 * time.Second))
 			if k, err := cl.Read(buf); err == nil && k >= 20 && buf[1] == d[1] {
 				answered++
@@ -231,10 +237,18 @@ func serverFlood(c *Ctx, r *Rng, n int) {
 				c.Fail("spec", "PacketServer.Serve", "server-stopped-serving", fmt.Sprintf("after %d datagrams, valid request %x", i, d), fmt.Sprint("no reply: ", err), "an Access-Accept", "a packet server fed arbitrary datagrams keeps serving")
 				return
 			}
+			if i%8 == 3 {
+				cut := d[:20+r.Intn(len(d)-21)]
+				sent[string(cut[4:20])] = append(sent[string(cut[4:20])], cut)
+				cl.Write(cut)
+				cl.SetReadDeadline(time.Now().Add(20 * time.Millisecond))
+				cl.Read(buf)
+				c.TagOnly("server-truncated-after-longer")
+			}
 			continue
 		}
 		if len(d) >= 20 {
-			sent[string(d[4:20])] = d
+			sent[string(d[4:20])] = append(sent[string(d[4:20])], d)
 		}
 		cl.Write(d)
 		// drain any reply (hostile datagrams that happen to be valid requests are answered too)
@@ -244,14 +258,23 @@ func serverFlood(c *Ctx, r *Rng, n int) {
 	time.Sleep(50 * time.Millisecond)
 	mu.Lock()
 	defer mu.Unlock()
-	for auth := range seen {
-		d, ok := sent[auth]
+	for auth, times := range seen {
+		ds, ok := sent[auth]
 		if !ok {
 			c.Fail("spec", "PacketServer.Serve", "handler-got-unsent", hx([]byte(auth)), "handler invoked for a packet that was never sent", "", "")
 			continue
 		}
-		if _, err := radius.Parse(d, sec); err != nil {
-			c.Fail("spec", "PacketServer.Serve", "handler-got-unparsable", hx(d), "the handler was invoked", "dropped: "+err.Error(), "the server never hands its handler a packet the parser rejects")
+		parsable := 0
+		var bad []byte
+		for _, d := range ds {
+			if _, err := radius.Parse(d, sec); err == nil {
+				parsable++
+			} else {
+				bad = d
+			}
+		}
+		if times > parsable {
+			c.Fail("spec", "PacketServer.Serve", "handler-got-unparsable", hx(bad), fmt.Sprintf("the handler was invoked %d times for this authenticator", times), fmt.Sprintf("%d of the datagrams sent with it parse", parsable), "the server never hands its handler a packet the parser rejects")
 		}
 		c.Count("server-dispatched", auth)
 	}
@@ -353,7 +376,7 @@ func init() {
 		serverFlood(c, r, c.N(400, 6000))
 		c.Flush()
 		var need []string
-		for _, k := range []string{"arbitrary", "hostile-typed+parsed", "valid+parsed", "server-flood", "server-dispatched", "crafted-tunnel-password"} {
+		for _, k := range []string{"arbitrary", "hostile-typed+parsed", "valid+parsed", "server-flood", "server-dispatched", "server-truncated-after-longer", "crafted-tunnel-password"} {
 			need = append(need, k)
 		}
 		hh := false
